@@ -27,8 +27,8 @@ type HistKnobs struct {
 }
 
 var allHB = []string{"below", "min", "inside", "max", "above", "text", "absent"}
-var allMethod = []string{"allowed", "disallowed", "absent"}
-var allCreds = []string{"good", "bad"}
+var allMethod = []string{"allowed", "allowed", "disallowed", "absent", "padded"}
+var allCreds = []string{"good", "good", "bad", "padded"}
 
 func genHistory(t *rapid.T, k HistKnobs) *Script {
 	cfg := genCfg(t, k.Role)
